@@ -4,24 +4,40 @@ package vatomic
 
 import (
 	"sync/atomic"
+	"unsafe"
 
 	"github.com/google/mtail/internal/zverif/vrt"
 )
 
-func LoadInt64(p *int64) int64            { vrt.Atomic(); return atomic.LoadInt64(p) }
-func StoreInt64(p *int64, v int64)        { vrt.Atomic(); atomic.StoreInt64(p, v) }
-func AddInt64(p *int64, d int64) int64    { vrt.Atomic(); return atomic.AddInt64(p, d) }
-func LoadUint64(p *uint64) uint64         { vrt.Atomic(); return atomic.LoadUint64(p) }
-func StoreUint64(p *uint64, v uint64)     { vrt.Atomic(); atomic.StoreUint64(p, v) }
-func AddUint64(p *uint64, d uint64) uint64 { vrt.Atomic(); return atomic.AddUint64(p, d) }
-func LoadInt32(p *int32) int32            { vrt.Atomic(); return atomic.LoadInt32(p) }
-func StoreInt32(p *int32, v int32)        { vrt.Atomic(); atomic.StoreInt32(p, v) }
-func AddInt32(p *int32, d int32) int32    { vrt.Atomic(); return atomic.AddInt32(p, d) }
+func LoadInt64(p *int64) int64     { vrt.AtomicAt(unsafe.Pointer(p), false); return atomic.LoadInt64(p) }
+func StoreInt64(p *int64, v int64) { vrt.AtomicAt(unsafe.Pointer(p), true); atomic.StoreInt64(p, v) }
+func AddInt64(p *int64, d int64) int64 {
+	vrt.AtomicAt(unsafe.Pointer(p), true)
+	return atomic.AddInt64(p, d)
+}
+func LoadUint64(p *uint64) uint64 {
+	vrt.AtomicAt(unsafe.Pointer(p), false)
+	return atomic.LoadUint64(p)
+}
+func StoreUint64(p *uint64, v uint64) {
+	vrt.AtomicAt(unsafe.Pointer(p), true)
+	atomic.StoreUint64(p, v)
+}
+func AddUint64(p *uint64, d uint64) uint64 {
+	vrt.AtomicAt(unsafe.Pointer(p), true)
+	return atomic.AddUint64(p, d)
+}
+func LoadInt32(p *int32) int32     { vrt.AtomicAt(unsafe.Pointer(p), false); return atomic.LoadInt32(p) }
+func StoreInt32(p *int32, v int32) { vrt.AtomicAt(unsafe.Pointer(p), true); atomic.StoreInt32(p, v) }
+func AddInt32(p *int32, d int32) int32 {
+	vrt.AtomicAt(unsafe.Pointer(p), true)
+	return atomic.AddInt32(p, d)
+}
 func CompareAndSwapInt64(p *int64, o, n int64) bool {
-	vrt.Atomic()
+	vrt.AtomicAt(unsafe.Pointer(p), true)
 	return atomic.CompareAndSwapInt64(p, o, n)
 }
 func CompareAndSwapInt32(p *int32, o, n int32) bool {
-	vrt.Atomic()
+	vrt.AtomicAt(unsafe.Pointer(p), true)
 	return atomic.CompareAndSwapInt32(p, o, n)
 }
